@@ -1,0 +1,35 @@
+//go:build verif
+
+package gen
+
+// Verification hooks for property C11 (add-only, compiled with -tags verif only):
+// the keyword switch generator used by go_lexer.go.tmpl.
+
+// VerifSwitchCase is one `if hash == H && "str" == text` arm.
+type VerifSwitchCase struct {
+	Hash   uint32
+	Str    string
+	Action int
+}
+
+// VerifHashCase is one `case V:` of the outer switch.
+type VerifHashCase struct {
+	Value    uint32
+	Subcases []VerifSwitchCase
+}
+
+// VerifAsStringSwitch exposes asStringSwitch: the size (power of two) and the cases.
+func VerifAsStringSwitch(m map[string]int) (size uint32, cases []VerifHashCase) {
+	sw := asStringSwitch(m)
+	for _, c := range sw.Cases {
+		hc := VerifHashCase{Value: c.Value}
+		for _, s := range c.Subcases {
+			hc.Subcases = append(hc.Subcases, VerifSwitchCase{Hash: s.Hash, Str: s.Str, Action: s.Action})
+		}
+		cases = append(cases, hc)
+	}
+	return sw.Size, cases
+}
+
+// VerifStringHash exposes stringHash.
+func VerifStringHash(s string) uint32 { return stringHash(s) }
